@@ -390,6 +390,23 @@ def c08_elements(domain, tier, seed):
     return descs, first, texts
 
 
+def deep_t0_elements(domain, tier):
+    curve = curve_of(domain)
+    out = []
+    for k in ((24, 27, 30) if tier == "thorough" else (27, 30)):
+        h_t = 2.0 ** -k
+        for piece, frac in ((0, 5 / 16), (len(curve.pw_start) - 2, 11 / 16)):
+            lo, hi = float(curve.pw_start[piece]), float(curve.pw_start[piece + 1])
+            m = 0
+            while ((hi - lo) * 2.0 ** -m) ** 2 > 8 * h_t:            # aspect <= 8: at aspect exactly 32 the pristine tree is at 1.6e-6
+                m += 1
+            h_x = (hi - lo) * 2.0 ** -m
+            x0 = lo + round(frac * 2 ** m) * h_x
+            out.append((0.0, 2 * h_t, x0, x0 + h_x))          # its time halves are [0, h_t] and [h_t, 2 h_t]
+            out.append((h_t, 2 * h_t, x0, x0 + h_x))
+    return out
+
+
 def _pick(rng, items, n):
     items = list(items)
     if len(items) <= n:
@@ -454,6 +471,13 @@ def run_c08(chk, tier, seed, only=None):
             while gs == fs:
                 gs = fam()
             tasks.append(("linear-in-u0", domain, d, (fs, gs, round(rng.uniform(-2, 2), 3), round(rng.uniform(-2, 2), 3))))
+        # elements strongly graded towards t = 0 (time levels 24..30, aspect <= 32): the a == 0 / a > 0 distinction of the
+        # time-integrated kernel must be exact, not "close to 0" (third-round seed: np.isclose(a, 0) has atol 1e-8)
+        for d in deep_t0_elements(domain, tier):
+            tasks.append(("additive-under-splitting", domain, d, fam()))
+            if d[0] != 0:
+                for p in probs:
+                    tasks.append(("linform-vs-closed-form", domain, d, p))
         pts = _points(domain, rng, par["n_d"])
         for pt in pts:
             for p in probs:
